@@ -1,5 +1,6 @@
 import GdslModel.Lemmas.Di
 import GdslModel.Lemmas.Extra
+import GdslModel.Model.Builder
 /-!
 # C08 — transpose() searches the edge-reversed graph
 In the model every traversal is a function of the adjacency it iterates. A configuration with
@@ -52,5 +53,40 @@ theorem Transpose.reach_reverse (s : Store K E) (h : Mirror s) (a b : K) :
 theorem Transpose.reach_reverse_filter (s : Store K E) (h : Mirror s) (acc : K → K → E → Bool) (a b : K) :
     Reach (accAdj (inAdj s) acc) a b ↔ Reach (accAdj (outAdj s) (fun u v e => acc v u e)) b a :=
   reach_inn_iff s h acc a b
+
+/-! ### the builder: the order of the configuration calls does not matter
+`transpose()`, `min()`/`max()` and `target()` each set one field of the builder (`Model/Builder.lean`). -/
+
+/-- two compatible calls commute -/
+theorem Builder.apply_comm (c : BCfg K) (a b : BStep K) (h : a.compatible b = true) :
+    (c.apply a).apply b = (c.apply b).apply a := by
+  cases a <;> cases b <;> simp_all [BCfg.apply, BStep.compatible]
+
+/-- any two orders of the same pairwise compatible calls build the same configuration: in particular
+    `.transpose().max()` is `.max().transpose()`, with or without a target in between -/
+theorem Builder.order_irrelevant (steps steps' : List (BStep K)) (hp : steps.Perm steps')
+    (hc : ∀ a ∈ steps, ∀ b ∈ steps, a.compatible b = true) :
+    BCfg.build steps = BCfg.build steps' := by
+  unfold BCfg.build
+  exact hp.foldl_eq' (fun a ha b hb z => Builder.apply_comm z a b (hc a ha b hb)) _
+
+/-- a transposed builder follows the incoming lists whatever else was configured and in whatever order -/
+theorem Builder.transpose_sticks (steps : List (BStep K)) (c : BCfg K)
+    (h : c.tr = true ∨ BStep.transpose ∈ steps) : (steps.foldl BCfg.apply c).tr = true := by
+  induction steps generalizing c with
+  | nil =>
+    rcases h with h | h
+    · exact h
+    · cases h
+  | cons s rest ih =>
+    simp only [List.foldl_cons]
+    apply ih
+    rcases h with h | h
+    · left; cases s <;> simp [BCfg.apply, h]
+    · rcases List.mem_cons.mp h with rfl | h
+      · left; simp [BCfg.apply]
+      · right; exact h
+
+example : BCfg.build [BStep.transpose, .max, .target (3 : Nat)] = BCfg.build [.target 3, .max, .transpose] := by decide
 
 end G
